@@ -385,7 +385,12 @@ func handleZDIFFSTORE(params internal.HandlerFuncParams) ([]byte, error) {
 
 	// Extract base set
 	if !keyExists[keys.ReadKeys[0]] {
-		// If base set does not exist, return 0
+		// If base set does not exist, the difference is empty: it replaces the destination.
+		if err = params.SetValues(params.Context, map[string]interface{}{
+			destination: NewSortedSet([]MemberParam{}),
+		}); err != nil {
+			return nil, err
+		}
 		return []byte(":0\r\n"), nil
 	}
 
@@ -548,6 +553,12 @@ func handleZINTERSTORE(params internal.HandlerFuncParams) ([]byte, error) {
 	values := params.GetValues(params.Context, keys)
 	for i := 0; i < len(keys); i++ {
 		if !keyExists[keys[i]] {
+			// The intersection with a missing key is empty: it replaces the destination.
+			if err = params.SetValues(params.Context, map[string]interface{}{
+				destination: NewSortedSet([]MemberParam{}),
+			}); err != nil {
+				return nil, err
+			}
 			return []byte(":0\r\n"), nil
 		}
 		set, ok := values[keys[i]].(*SortedSet)
